@@ -24,12 +24,25 @@ class Violation(Exception):
         self.detail = detail
 
 
+_KEYNAMES = None  # optional renaming of the generated keys (falsy keys 0, '', () ...), set by the sweep for variant runs
+
+
+def _rename(request):
+    if not _KEYNAMES:
+        return request
+    if isinstance(request, list):
+        return [_rename(r) for r in request]
+    return _KEYNAMES.get(request, request)
+
+
 def make_graph(spec, fail=()):
     """spec: tuple of (kind, deps) per node in topological order; kind in 'T' (task) 'D' (data) 'A' (alias).
     Returns (dsk, denote, counters)."""
     from dask._task_spec import Alias, DataNode, Task, TaskRef
 
     names = [chr(ord("A") + i) if i >= 26 else chr(ord("a") + i) for i in range(len(spec))]
+    if _KEYNAMES:
+        names = [_KEYNAMES.get(x, x) for x in names]
     runs = {}
     recv = {}
     denote = {}
@@ -43,7 +56,7 @@ def make_graph(spec, fail=()):
                 raise FailingTask(name)
             return (name,) + tuple(args)
 
-        f.__name__ = "f_" + name
+        f.__name__ = f"f_{name}"
         return f
 
     for name, (kind, deps) in zip(names, spec):
@@ -134,6 +147,7 @@ def run_one(spec, request, num_workers, chunksize, schedule, fail=(), check_inva
     import dask.local as L
 
     dsk, denote, runs, recv = make_graph(spec, fail)
+    request = _rename(request)
     flat = list(L.flatten(request)) if isinstance(request, list) else [request]
     flat = [k for k in flat if not isinstance(k, list)]
     needed = closure(dsk, flat)
@@ -369,6 +383,34 @@ def sweep(tier, seed=0, with_failures=True, time_budget=None):
                 yield tuple(("N" if k == "D" else k, d) for k, d in spec)
                 yield tuple(("Z" if k == "D" else k, d) for k, d in spec)
 
+    # keys that are falsy (0, '', ()) or compare equal to other Python values: every graph with <= 3 nodes once more
+    global _KEYNAMES
+    _KEYNAMES = {"a": 0, "b": "", "c": ()}
+    try:
+        for n in range(1, 4):
+            for spec in graph_specs(n, ("T", "D", "A")):
+                for req in requests_for(n):
+                    for nw, cs in configs[:2]:
+                        cases += 1
+                        args = {"graph": spec, "request": _rename(req), "num_workers": nw, "chunksize": cs, "failing": (), "keys": "0, '', ()"}
+                        try:
+                            runs += all_schedules(spec, req, nw, cs, (), limit=20)
+                        except Violation as v:
+                            fails.append(rtc.Failure("get_async", args, "ensures", v.clause, v.detail))
+                        except Hang as h:
+                            fails.append(rtc.Failure("get_async", args, "timeout", "C04-never-hangs", str(h)))
+                        except BaseException as e:  # noqa
+                            fails.append(rtc.Failure("get_async", args, "exception", type(e).__name__, repr(e)))
+                        if fails:
+                            break
+                    if fails:
+                        break
+                if fails:
+                    break
+            if fails:
+                break
+    finally:
+        _KEYNAMES = None
     for n in range(1, nmax + 1):
         for spec in with_null_literals(n):
             null_variant = any(k in ("N", "Z") for k, _ in spec)
@@ -472,7 +514,7 @@ def sweep(tier, seed=0, with_failures=True, time_budget=None):
     return {
         "function": "dask/local.py:get_async (real code, controlled executor)",
         "bounded": True,
-        "bound": {"max_nodes": nmax, "node_kinds": "task/data/alias/external-cache entry; literal data also with the values None and 0", "configs(num_workers,chunksize)": configs, "all completion interleavings up to": 60 if tier == "quick" else 400, "time_budget_s": budget},
+        "bound": {"max_nodes": nmax, "node_kinds": "task/data/alias/external-cache entry; literal data also with the values None and 0; all graphs <= 3 nodes again with the falsy keys 0, '', ()", "configs(num_workers,chunksize)": configs, "all completion interleavings up to": 60 if tier == "quick" else 400, "time_budget_s": budget},
         "cases": cases,
         "distinct_nontrivial": cases,
         "executions": runs,
@@ -513,6 +555,33 @@ def remote_exception_sweep(tier, seed=0):
 
     classes = [ValueError, KeyError, LookupError, ZeroDivisionError, RuntimeError, make_error(LookupError), make_error(ValueError), make_error(Exception),
                make_error(ArithmeticError), make_error(OSError), type("Dyn", (TypeError,), {}), type("Dyn", (IndexError,), {})]
+    # exception classes whose constructor does not take exactly one argument (the wrapper type is cached after the
+    # first failure: the second failure of the same type must come back as that type too)
+    class HttpError(Exception):
+        def __init__(self, status, reason):
+            super().__init__(status, reason)
+            self.status, self.reason = status, reason
+
+        def __str__(self):
+            return f"{self.status} {self.reason}"
+
+    multi = [(UnicodeDecodeError, lambda m: UnicodeDecodeError("utf-8", b"\xff", 0, 1, m)), (HttpError, lambda m: HttpError(500, m)),
+             (OSError, lambda m: OSError(2, m)), (KeyError, lambda m: KeyError(m, "second-arg"))]
+    for rounds in range(3):
+        for cls, mk in multi:
+            cases += 1
+            tag = "boom-m%d" % cases
+            try:
+                r = remote_exception(mk(tag), "traceback text")
+                msg = None
+                if not isinstance(r, cls):
+                    msg = f"failure number {rounds + 1} of this type: re-raised exception is a {type(r).__mro__[:3]}, not an instance of {cls.__name__}"
+                elif tag not in str(r) and tag not in repr(r.args):
+                    msg = f"message lost: {str(r)!r}"
+            except Exception as ex:  # noqa
+                msg = f"failure number {rounds + 1} of this type: remote_exception raised {type(ex).__name__}: {ex}"
+            if msg:
+                fails.append(rtc.Failure("remote_exception", {"class": cls.__name__, "constructor": "several arguments", "round": rounds}, "ensures", "C04-same-type-same-message", msg))
     for rounds in range(2):
         for cls in classes:
             cases += 1
@@ -528,6 +597,6 @@ def remote_exception_sweep(tier, seed=0):
                 msg = f"{type(ex).__name__}: {ex}"
             if msg:
                 fails.append(rtc.Failure("remote_exception", {"class": f"{cls.__module__}.{cls.__qualname__}", "bases": [b.__name__ for b in cls.__bases__], "round": rounds}, "ensures", "C04-same-type-same-message", msg))
-    return {"function": "dask/multiprocessing.py:remote_exception (real code)", "bounded": True, "bound": {"exception classes": len(classes), "rounds": 2, "incl": "same-named classes from a factory with different bases"},
+    return {"function": "dask/multiprocessing.py:remote_exception (real code)", "bounded": True, "bound": {"exception classes": len(classes), "rounds": 2, "incl": "same-named classes from a factory with different bases; classes with multi-argument constructors, three failures each"},
             "cases": cases, "distinct_nontrivial": cases, "failures_found": len(fails), "wall_s": round(time.time() - t0, 2),
             "samples": [{"native_case": {"class": "make_error.<locals>.TaskError", "bases": ["LookupError"]}}], "failures": fails[:3]}
